@@ -508,6 +508,9 @@ func (s *startupCoordinator) authenticateHandshake(ctx context.Context, authFram
 			}
 			return nil
 		case *authChallengeFrame:
+			if challenger == nil {
+				return fmt.Errorf("gocql: received AUTH_CHALLENGE but the authenticator provided no challenger")
+			}
 			resp, challenger, err = challenger.Challenge(v.data)
 			if err != nil {
 				return err
